@@ -1334,4 +1334,4 @@ fn proc_gen_expression_level(expr: &Expression) -> ExpressionLevel {
 // verification hooks (glass_easel_verif): compiled only under the cfg guard
 #[cfg(any(kani, glass_easel_verif))]
 #[path = "/verif/hooks/tc_proc_gen_expr.rs"]
-mod verif;
+pub mod verif;
